@@ -61,6 +61,38 @@ def rnd(profile, quick, thorough):
             "thorough": [dict(profile=profile, steps=thorough[0], runs=thorough[1])]}
 
 
+def rolled_back_fee_behaviours():
+    """Fee parameters written by a proposal that is rolled back (its second message fails) - and by one that passes -, then
+    admission (CheckTx) of record / register / purchase transactions at the old, the proposed and a third fee."""
+    g = {"accts": ["A1", "A2"], "bal": {"A1": {"nund": 1000, "other": 10}, "A2": {"nund": 1000, "other": 10}},
+         "ent": {"signers": ["A1"], "min": 1, "limit": 4, "denom": "nund", "wl": [], "startId": 1},
+         "wrk": {"feeReg": 24, "feeRec": 2, "feePur": 3, "denom": "nund", "def": 2, "max": 4, "startId": 1},
+         "bcn": {"feeReg": 20, "feeRec": 1, "feePur": 5, "denom": "nund", "def": 2, "max": 4, "startId": 1},
+         "str": {"feeNum": 1, "feeDen": 100}}
+    BB, EB, CM = {"a": "BeginBlock", "dt": 1000}, {"a": "EndBlock"}, {"a": "Commit"}
+    wreg = {"t": "WReg", "owner": "A1", "moniker": "m", "name": "n", "genesis": "g", "type": "t"}
+    breg = {"t": "BReg", "owner": "A1", "moniker": "m", "name": "n"}
+    ops = {"wrk": [{"t": "WRec", "owner": "A1", "id": 1, "h": 7, "bh": "b", "ph": "", "h1": "", "h2": "", "h3": ""}, dict(wreg, owner="A2"), {"t": "WBuy", "owner": "A1", "id": 1, "n": 1}],
+           "bcn": [{"t": "BRec", "owner": "A1", "id": 1, "hash": "x", "subt": 7}, dict(breg, owner="A2"), {"t": "BBuy", "owner": "A1", "id": 1, "n": 1}]}
+    gb = []
+    for k in ("wrk", "bcn"):
+        newp = dict(g[k], feeReg=31, feeRec=6, feePur=7)
+        del newp["startId"]
+        for failing in (True, False):
+            msgs = [{"t": "UpdParams", "mod": k, "authority": "gov", "p": newp}]
+            if failing:
+                msgs.append({"t": "Send", "from": "gov", "to": "A1", "amt": 5, "denom": "nund"})
+            b = [{"a": "InitChain", "g": g}, BB, {"a": "DeliverTx", "fee": {"nund": 24}, "msgs": [wreg]}, {"a": "DeliverTx", "fee": {"nund": 20}, "msgs": [breg]},
+                 {"a": "DeliverTx", "msgs": [{"t": "GovProp", "proposer": "V", "msgs": msgs}, {"t": "Vote", "voter": "V", "id": 1}]}, EB, CM] + [BB, EB, CM] * 3
+            for m in ops[k]:
+                old = {"Rec": g[k]["feeRec"], "Reg": g[k]["feeReg"], "Buy": g[k]["feePur"]}[m["t"][1:]]
+                new = {"Rec": 6, "Reg": 31, "Buy": 7}[m["t"][1:]]
+                for f in (old, new, new + 1):
+                    b.append({"a": "CheckTx", "fee": {"nund": f}, "msgs": [m], "reset": True})
+            gb.append(b)
+    return gb
+
+
 def c06_custom(pid, tier, plan, scr, hbin, specdir):
     """C06: TLC enumerates CheckTx inputs one per behaviour (common prefix); they are packed into one
     behaviour per preset (prefix once, then every input followed by an empty block when admitted)."""
@@ -101,6 +133,9 @@ def c06_custom(pid, tier, plan, scr, hbin, specdir):
     rec, _ = vlib.record_behaviours(hbin, behs, scr, name="recheck")
     recs.append((rec, "tlc-bfs-sweep:MC_Par.cfg pending transactions re-admitted after fee changes", len(behs)))
     cov["recheck_behaviours"] = len(behs)
+    gb = rolled_back_fee_behaviours()
+    rec, _ = vlib.record_behaviours(hbin, gb, scr, name="fees-after-rolled-back-proposal")
+    recs.append((rec, "scripted: admission after a fee update that was rolled back / that passed", len(gb)))
     violations, known_hits = classify(pid, recs, cov, scr, specdir)
     return cov, violations, known_hits
 
